@@ -46,7 +46,7 @@ PROPS = {
                       "(awalk folds run_from over the concatenation); attribute tokenisation (parse_attribute_to_meta_list, parse_meta_list) is uninterpreted.",
         "design_ref": "DESIGN.md section 6 C08",
         "assumptions": "L3",
-        "not_covered": ["`attrs` / `data` with a custom `with` converter", "FromVariant receivers declaring supports(..) (inline ShapeSet check)", "partition-invariance as a separately stated lemma (it is implicit in the oracle: awalk folds run_from over the concatenation)"],
+        "not_covered": ["`data` with a custom `with` converter (`attrs` with one is covered: receivers D14/D15)", "partition-invariance as a separately stated lemma (it is implicit in the oracle: awalk folds run_from over the concatenation)"],
     },
     "C16": {
         "units": ["c16_body_conversion", "c16_generics"],
@@ -59,7 +59,7 @@ PROPS = {
                       "TypeParams::next yields exactly the type parameters in order and terminates; syn pass-through impls return the named part unchanged. syn seen through full-field mirrors with opaque leaves; converters through client-view traits.",
         "design_ref": "DESIGN.md section 6 C16",
         "assumptions": "L3",
-        "not_covered": ["magic fields with `with` converters or wrapped in SpannedValue/WithOriginal/Result at L3", "Fields::to_tokens print round trip (quote!/TokenStream: not expressible)", "From<(Style,U)> for Fields / Style::with_fields", "impl From{Field,Variant,TypeParam} for () (`_` parameter pattern rejected by Verus)"],
+        "not_covered": ["magic fields with `with` converters or wrapped in SpannedValue/WithOriginal/Result at L3", "Fields::to_tokens print round trip (quote!/TokenStream: not expressible)", "From<(Style,U)> for Fields / Style::with_fields", "`data` / `fields` magic members with a `with` converter"],
     },
     "C09": {
         "units": [],
